@@ -236,10 +236,37 @@ def rss_watchdog(stop, limit_gb, killed):
                     pass
 
 
+def discover_unwindset(scratch, o, tdir):
+    """Library loops whose real trip count is tiny but not syntactically evident (hashbrown probing) get an
+    individual bound (unwinding assertions stay on).  Loop identifiers are mangled names of the pinned
+    std/hashbrown, so they are read from CBMC's own loop listing instead of being hard-coded."""
+    cmd = ["cargo", "kani", "-Z", "stubbing", "-Z", "unstable-options", "--target-dir", tdir, "--output-format", "old",
+           "--harness", o["harness"], "--exact", "--cbmc-args", "--show-loops"]
+    env = dict(os.environ, CARGO_NET_OFFLINE="true")
+    try:
+        p = subprocess.run(cmd, cwd=scratch.src, env=env, capture_output=True, text=True, timeout=900)
+    except subprocess.TimeoutExpired:
+        return None
+    loops = re.findall(r"^Loop (\S+):$", p.stdout + p.stderr, re.M)
+    sel = []
+    for rx, n in o["unwindset"].items():
+        hits = [l for l in loops if re.search(rx, l)]
+        if not hits:
+            return None
+        sel += [f"{l}:{n}" for l in hits]
+    return ",".join(sorted(set(sel)))
+
+
 def run_kani_group(scratch, gid, obls, tier_timeout):
     """One `cargo kani` invocation for obligations that share CBMC arguments. Returns {obl_id: result}."""
-    cbmc_args = obls[0].get("cbmc_args", [])
+    cbmc_args = list(obls[0].get("cbmc_args", []))
     tdir = os.path.join(scratch.root, "target-" + gid)
+    if obls[0].get("unwindset"):
+        assert len(obls) == 1
+        us = discover_unwindset(scratch, obls[0], tdir)
+        if us is None:
+            return {obls[0]["id"]: {"status": "undecided", "reason": "lost anchor: library loops named by the unwindset patterns not found"}}
+        cbmc_args += ["--unwindset", us]
     out_json = os.path.join(scratch.root, f"out-{gid}.json")
     out_log = os.path.join(scratch.root, f"out-{gid}.log")
     if os.path.exists(out_json):
@@ -545,7 +572,7 @@ def run_property(prop, tier, seed):
         if kani_todo and not fatal:
             groups = {}
             for o in kani_todo:
-                gid = hashlib.sha256((" ".join(o.get("cbmc_args", [])) + "|" + o.get("group", "")).encode()).hexdigest()[:8]
+                gid = hashlib.sha256((" ".join(o.get("cbmc_args", [])) + "|" + o.get("group", "") + "|" + (o["id"] if o.get("unwindset") else "")).encode()).hexdigest()[:8]
                 groups.setdefault(gid, []).append(o)
             with cf.ThreadPoolExecutor(max_workers=max(1, len(groups))) as ex:
                 futs = {ex.submit(run_kani_group, scratch, gid, g, None): gid for gid, g in groups.items()}
